@@ -273,7 +273,12 @@ def c15_datasets():
     d2 = T["complete"] + T["dangling"] + T["early"] + T["edge"]      # the first run's cleaning removes traces
     # the files contain a re-delivered span (same id twice, next to each other and far apart)
     d3 = T["complete"][:2] + [dict(T["complete"][1])] + T["names"] + [dict(T["complete"][0])] + T["complete"][2:]
-    return [("same-shapes", d1, 0), ("cleaning-removes", d2, 1), ("duplicated-spans", d3, 0)]
+    # time buffer > 0, the first run's window pass removes the outermost traces, and among the survivors one trace lies
+    # within the buffer of the survivors' own extremes: a later run must not judge it against a window of its own
+    d4 = T["early"] + T["late"] + T["complete"] + T["names"] + \
+        [span("q0", NOPAR, "jq", "n1", "A", 2, 3), span("q1", "q0", "jq", "n1", "B", 2, 3),
+         span("r0", NOPAR, "jr", "n2", "A", 7, 8)]
+    return [("same-shapes", d1, 0), ("cleaning-removes", d2, 1), ("duplicated-spans", d3, 0), ("buffered-edge", d4, 2)]
 
 
 def c15_histories(maxlen):
